@@ -253,6 +253,98 @@ class Module:
         return L
 
 
+def check_def_list(ctx, n):
+    """separate_def_list (the entities of a declaration) against C11.DefList.separate: generated entity lists (array specs,
+    constructors, initialisations, blanks around) -- ground truth = the entities written, trimmed -- and arbitrary strings of
+    brackets, commas and blanks (None when the list starts with an empty piece).  Literal-free texts: strip_strings is the
+    identity on them."""
+    from fortls.helper_functions import separate_def_list
+    coq = ctx.coq("From FV Require Import Base.Str C11.DefList.\n"
+                  "Definition olist_eqb (a b : option (list str)) : bool := match a, b with None, None => true | Some x, Some y => lines_eqb x y | _, _ => false end.\n")
+    r = ctx.rng
+    exprs, meta = [], []
+
+    def ent():
+        name = r.choice(["a", "b1", "var", "x_y"])
+        spec = r.choice(["", "", "(3)", "(2, n)", "(:, :)", "(size(v, 1), 0:k)"])
+        init = r.choice(["", "", " = 1", " = [1, 2, 3]", " = (/ 1, 2 /)", " => null()", " = f(g(1, 2), [3, 4])", "*8"])
+        return r.choice(["", " ", "\t "]) + name + spec + init + r.choice(["", " ", "  "])
+    for k in range(n):
+        if k % 2 == 0:
+            ents = [ent() for _ in range(r.choice([1, 2, 3, 5]))]
+            text = ",".join(ents)
+            truth = [e.strip() for e in ents]
+        else:
+            text = "".join(r.choice("ab ,,()[]=\t1") for _ in range(r.choice([0, 1, 2, 4, 7, 12])))
+            truth = None
+        got = separate_def_list(text)
+        ctx.count(("def-list", text), got is not None and len(got) > 1)
+        if truth is not None and got != truth:
+            ctx.report("C11:def-list", "the entities of a declaration are not read back as written: %r" % (got,),
+                       {"kind": "counterexample", "input": {"text": text}, "implementation": got, "oracle": truth})
+        exprs.append("olist_eqb (separate ascii_blank %s) %s" % (cstr(text), "None" if got is None else "(Some %s)" % clist(got, cstr)))
+        meta.append({"text": text, "implementation": got})
+    bad = coq.bools(exprs, shard=400)
+    ctx.cov["traces_validated_against_impl"] += len(exprs)
+    for b in bad[:3]:
+        ctx.report("C11:def-list-model-mismatch", "separate_def_list differs from C11.DefList.separate on %r" % meta[b]["text"],
+                   {"kind": "broken-correspondence", "input": meta[b], "correspondence": "FV.C11.DefList.separate vs helper_functions.separate_def_list"}, found_input=False)
+
+
+def check_level(ctx, n):
+    """C11/Level.v against the implementation: get_paren_level (the text of the parenthesis level the cursor is in) and
+    strip_strings (literals removed) on generated call prefixes -- ground truth = the number of arguments written -- and on
+    arbitrary strings of brackets, quotes and commas."""
+    from fortls.helper_functions import get_paren_level, strip_strings
+    coq = ctx.coq("From FV Require Import Base.Str C11.Level.\n")
+    r = ctx.rng
+    exprs, meta = [], []
+
+    def arg(depth=0):
+        parts = []
+        for _ in range(r.choice([1, 1, 2, 3])):
+            k = r.choice(["name", "num", "lit", "call", "arr", "blank", "kw"] if depth < 2 else ["name", "num", "lit"])
+            if k == "name":
+                parts.append(r.choice(["a", "x_1", "n"]))
+            elif k == "num":
+                parts.append(r.choice(["1", "2.5", "1_8"]))
+            elif k == "lit":
+                parts.append(r.choice(["'x,('", '"a)b"', "'say \"hi\"'", '"it\'s, ok"', "''", '"]"']))
+            elif k == "call":
+                parts.append(r.choice(["f", "g", ""]) + "(" + ", ".join(arg(depth + 1) for _ in range(r.choice([0, 1, 2, 3]))) + ")")
+            elif k == "arr":
+                parts.append("[" + ", ".join(arg(depth + 1) for _ in range(r.choice([1, 2]))) + "]")
+            elif k == "kw":
+                parts.append("key=")
+            else:
+                parts.append(" ")
+        return "".join(parts)
+    for k in range(n):
+        if k % 2 == 0:
+            args = [arg() for _ in range(r.choice([1, 2, 3, 4]))]
+            pre = r.choice(["call s", "  x = f", "y = g(1, 2) + h", "call obj%bound", "print *, 'p(' // t", ""])
+            text = pre + "(" + ",".join(args)
+            truth = len(args) - 1
+        else:
+            text = "".join(r.choice("ab(),[]'\" =") for _ in range(r.choice([0, 1, 2, 4, 7, 12])))
+            truth = None
+        level = get_paren_level(text)[0]
+        bare = strip_strings(level)
+        index = len(bare.split(",")) - 1
+        ctx.count(("level", text), truth is not None and truth > 0)
+        if truth is not None and index != truth:
+            ctx.report("C11:argument-index", "the cursor is in argument %d of the call, the level text gives %d" % (truth, index),
+                       {"kind": "counterexample", "input": {"text": text}, "implementation": {"level": level, "without_literals": bare, "index": index}, "oracle": truth})
+        exprs.append("str_eqb (paren_level %s) %s && str_eqb (remove None %s) %s && Nat.eqb (argument_index %s) %s"
+                     % (cstr(text), cstr(level), cstr(level), cstr(bare), cstr(text), cnat(index)))
+        meta.append({"text": text, "implementation": {"level": level, "without_literals": bare, "index": index}})
+    bad = coq.bools(exprs, shard=400)
+    ctx.cov["traces_validated_against_impl"] += len(exprs)
+    for b in bad[:3]:
+        ctx.report("C11:level-model-mismatch", "get_paren_level / strip_strings differ from C11.Level on %r" % meta[b]["text"],
+                   {"kind": "broken-correspondence", "input": meta[b], "correspondence": "FV.C11.Level.paren_level/remove vs helper_functions.get_paren_level/strip_strings"}, found_input=False)
+
+
 def check_param_reader(ctx, n):
     """read_parameter_value (the balanced scan behind PARAMETER values in hover) against C11.Param.read_parameter_value"""
     try:
@@ -537,6 +629,8 @@ def run(ctx):
     check_oracle(ctx, 25 if q else 500)
     check_directed(ctx)
     check_param_reader(ctx, 300 if q else 6000)
+    check_def_list(ctx, 300 if q else 6000)
+    check_level(ctx, 300 if q else 6000)
 
 
 def replay(ctx, path):
